@@ -20,7 +20,8 @@ def run_rt(ctx):
     ev = vlib.read_ndjson(tr)
     stats = {"executed": 0, "execute_too_early": 0, "execute_approver_revoked": 0, "execute_unapproved": 0,
              "approve_twice": 0, "approve_without_role": 0, "rerun_closed": 0, "create_bad_signer": 0,
-             "delay_increased": 0, "recreated": 0, "delivered_with_wallet_signer": 0, "batch_variants": 0}
+             "delay_increased": 0, "recreated": 0, "delivered_with_wallet_signer": 0, "batch_variants": 0,
+             "executed_readonly_signer": 0}
     for e in ev:
         pre = e["pre"]
         b = pre["buf"][e["b"] - 1] if e["b"] else None
@@ -29,6 +30,7 @@ def run_rt(ctx):
             if e["ok"]:
                 stats["executed"] += 1
                 stats["delivered_with_wallet_signer"] += any(m["signer"] for m in e["delivered"]["metas"])
+                stats["executed_readonly_signer"] += any(m["signer"] and not m["writable"] for m in e["buffered"]["metas"])
             elif b["st"] == "approved":
                 if b["approver"] not in pre["holds"]:
                     stats["execute_approver_revoked"] += 1
@@ -42,7 +44,7 @@ def run_rt(ctx):
             stats["approve_twice"] += b["st"] == "approved"
             stats["approve_without_role"] += b["st"] == "created" and e["x"] not in pre["holds"]
         elif e["op"] == "create":
-            stats["create_bad_signer"] += (not e["ok"]) and e["x"] == 3
+            stats["create_bad_signer"] += (not e["ok"]) and e["x"] % 10 == 3
             stats["recreated"] += e["ok"] and b["st"] in ("executed", "cancelled")
         elif e["op"] == "increase_delay":
             stats["delay_increased"] += e["ok"]
